@@ -139,16 +139,19 @@ Start(e) ==
 
 \* the attempt returns (the environment's choice of outcome) and qry.attempt() adds it to the
 \* shared counter; then success, a context error, or the absence of a retry policy end the
-\* execution with this attempt's Iter (lines 154-171).  One step: the harness logs the
-\* outcome inside Query.attempt, atomically with the counter.
+\* execution with this attempt's Iter (lines 154-171).  A query that is not marked idempotent
+\* is never retried: its execution ends with its only attempt (with NonIdemRetry the model also
+\* admits asking the policy, see Decide).  One step: the harness logs the outcome inside
+\* Query.attempt, atomically with the counter.
 End(e, o) ==
   LET r == [ex[e] EXCEPT !.out = o] IN
   /\ ex[e].pc = "run"
   /\ o \in (IF ex[e].ref THEN {"canceled"} ELSE cfg.outs \cup (IF CtxDead THEN {"canceled"} ELSE {}))
   /\ cnt' = cnt + 1
-  /\ IF ~IsErr(o) \/ cfg.pol.kind = "none"
-     THEN Finish(e, r, ThisRes(r))
-     ELSE ex' = [ex EXCEPT ![e] = [r EXCEPT !.pc = "pol"]]
+  /\ \/ /\ ~IsErr(o) \/ cfg.pol.kind = "none" \/ ~cfg.idem
+        /\ Finish(e, r, ThisRes(r))
+     \/ /\ IsErr(o) /\ cfg.pol.kind # "none" /\ (cfg.idem \/ NonIdemRetry)
+        /\ ex' = [ex EXCEPT ![e] = [r EXCEPT !.pc = "pol"]]
   /\ Emit(Ev("end", e, ex[e].cur, ex[e].ord, o, ""))
   /\ UNCHANGED <<cfg, ipos, started, spawned, launched, chan, ret, cancelled, returned>>
 
@@ -163,8 +166,9 @@ Allow(e) ==
   /\ Emit(Ev("allow", e, 0, cnt, IF yes THEN "yes" ELSE "no", ""))
   /\ UNCHANGED <<cfg, ipos, cnt, started, spawned, launched, chan, ret, cancelled, returned>>
 
-\* rt.GetRetryType(err): same host / next offered host / stop.  A query that is not marked
-\* idempotent is never retried, whatever the policy says.
+\* rt.GetRetryType(err): same host / next offered host / stop.  (Reached for a query that is
+\* not marked idempotent only with NonIdemRetry = TRUE, which admits every behaviour: stopping
+\* after the attempt, asking the policy and stopping, and - the code as it is - retrying.)
 Decide(e, d) ==
   LET r == ex[e]
       mayRetry == cfg.idem \/ NonIdemRetry
